@@ -311,7 +311,7 @@ func c18() []*Ob {
 							c.Violation("dom:markStale:rotate-when-insufficient", r.Pos(), "the decision to also mark the current generation stale no longer compares the bytes collected from older generations with sizeToClean: a cleaning pass can stop above the limit when most data sits in the current generation")
 						}
 					}
-					if len(CallsIn(fn, Callee("(*cache.Cleaner).rotate"))) == 0 {
+					if !Current.HasCall(fn, Callee("(*cache.Cleaner).rotate")) {
 						c.Violation("dom:markStale:no-rotate", fn.Pos(), "markStale can no longer clean the current generation")
 					}
 				}
